@@ -172,6 +172,11 @@ func (c *census) hash() uint64 {
 	}
 	hashRaw(&h, unsafe.Pointer(&c.sh.Palette), unsafe.Sizeof(c.sh.Palette))
 	h.U32(uint32(len(c.sh.Options)))
+	// the option list up to its capacity (a decoder appending to the list it was handed
+	// writes into the caller's array)
+	for _, o := range c.sh.Options[:cap(c.sh.Options)] {
+		h.U64(uint64(reflect.ValueOf(o).Pointer()))
+	}
 	return h.Sum()
 }
 
